@@ -34,7 +34,8 @@ Variable sev : P -> jctx -> res json * list sevent.
 Notation sem := (sem P sev).
 
 (* no filter raises, and events of filter evaluations carry no results of the enclosing search *)
-Definition pure_sev : Prop := forall p c, (exists v, fst (sev p c) = Ok v) /\ sresults (snd (sev p c)) = [].
+Definition pure_sev (r : list (vertex P)) : Prop :=
+  forall p c, In (VPred p) r -> (exists v, fst (sev p c) = Ok v) /\ sresults (snd (sev p c)) = [].
 
 (* slices with step 0 raise ValueError when matched (outside the supported steps, DESIGN.md 6/C16) *)
 Definition valid_step (v : vertex P) : bool :=
@@ -228,13 +229,12 @@ Qed.
 
 (* sem computes deval *)
 Theorem sem_deval :
-  pure_sev ->
-  forall r, valid_path r = true ->
+  forall r, pure_sev r -> valid_path r = true ->
   forall i pm c, ok (sem i r pm c) /\ sresults (fst (sem i r pm c)) = deval r c.
 Proof.
-  intros Hpure. induction r as [|v r IH]; intros Hvalid i pm c; [split; reflexivity|].
+  induction r as [|v r IH]; intros Hpure Hvalid i pm c; [split; reflexivity|].
   simpl in Hvalid. apply andb_prop in Hvalid. destruct Hvalid as [Hv Hr].
-  specialize (IH Hr).
+  specialize (IH (fun p c Hin => Hpure p c (or_intror Hin)) Hr).
   assert (Hgo : forall c', ok (rseq (rev1 (STrace c (Some c') (S i) pm)) (sem (S i) r pm c')) /\
                             sresults (fst (rseq (rev1 (STrace c (Some c') (S i) pm)) (sem (S i) r pm c'))) = deval r c').
   { intros c'. destruct (IH (S i) pm c') as [H1 H2]. destruct (go_results i r pm c c' H1) as [H3 H4].
@@ -290,7 +290,7 @@ Proof.
     unfold walk_results, is_container, leafb. destruct (members (cdata c')); [apply IH | reflexivity].
   - (* parent *) unfold select. destruct (ext_parent c); cbn [flat_map]; rewrite ?app_nil_r; first [apply Hgo | exact Hnone].
   - (* filter *)
-    unfold select. destruct (Hpure p c) as [[val Hval] Hnr].
+    unfold select. destruct (Hpure p c (or_introl eq_refl)) as [[val Hval] Hnr].
     destruct (sev p c) as [o es]. simpl in Hval, Hnr. subst o. simpl.
     destruct (truthy val).
     + destruct (Hgo c) as [G1 G2]. destruct (ok_rseq (es, None) _ eq_refl G1) as [H3 H4].
